@@ -271,15 +271,19 @@ through the main loop (Proofs/WorldWhole*.lean).
   (`C01_noDiscard_of_syntax`: true of every rule tree that contains no `discard`).  Discard is
   excluded over the whole configuration; lists that end in a discard are treated, per message and for
   at most one fault, by `C01_single_fault_discard`.
-* `Proofs.wholeRewrite env orc expr dir name c`: what `message_write` renders for the file `name` of
+* `Proofs.wholeRewrite env orc expr dir name c as`: what `message_write` renders for the file `name` of
   `dir` with content `c` once the actions of `expr` (label, add-header) have been interpolated - `c`
-  itself when the rules do not act; `Proofs.WholeVersion env orc exprs c c'`: `c'` is `c` after zero or
-  more such complete rewrites by rules of `exprs` (a message that is moved into a maildir walked
+  itself when the rules do not act - when the operating system answers the questions of evaluation (`command`,
+  `isdirectory`, file-time `date` conditions: they are evaluated inside the run, `Model.evalP`) with `as`; for a rule
+  tree without such conditions `as` is irrelevant (`Proofs.wholeRewrite_asksFree`).
+  `Proofs.WholeVersion env orc exprs c c'`: `c'` is `c` after zero or
+  more such complete rewrites by rules of `exprs`, each for some answers (a message that is moved into a maildir walked
   later is processed again).
-* Scope of "any configuration" (audit au1): `processMessage` evaluates the rules with `command := fun _ => -1`,
-  `isDir := fun _ => false`, `fileTime := fun _ => none`; `orc : EvalOracles` quantifies over the regex engine, `strptime` and
-  zone names only.  A configuration that uses a `command` / `isdirectory` / file-date condition is covered in the sense that
-  those conditions are errors / false in every run the theorems speak about.
+* Scope of "any configuration": audit au1 noted that `processMessage` evaluated the rules with the constant oracles
+  `command := fun _ => -1`, `isDir := fun _ => false`, `fileTime := fun _ => none`.  Since package p4 these three fields are not
+  consulted: a `command` / `isdirectory` / file-date condition issues its calls inside the run (`Model.evalP`) and the theorems
+  quantify over their results (the fault plan / the answers `as`); `orc : EvalOracles` quantifies over the regex engine,
+  `strptime`, zone names and `time_format`.
 * "Every registered message has an entry ..." is a statement by CONTENT (`∃ d n fid f, ... WholeVersion .. c f.data`), not by
   identity: two registered messages with the same bytes can be witnessed by one and the same entry.  The counting statements
   are the single-fault ones above.
@@ -310,9 +314,11 @@ theorem C01_start_of_parse (md : Maildir) (d : Handle) (name content : Bytes) (w
   ⟨Proofs.whole_start_of_parse md d name content w fid plan 0 [] hd hp hwf hl hf hc ms hr m fl,
    (Proofs.whole_start_of_parse md d name content w fid plan 0 [] hd hp hwf hl hf hc ms hr m fl).start⟩
 
-/-- **One message.**  `processMessage` under EVERY fault plan, started in a world where the
+/-- **One message.**  `processMessage` under EVERY fault plan (faults may also hit the calls of evaluation: `fork`,
+`waitpid`, `stat`, ...), started in a world where the
 message's entry is bound to a complete file: after every call some entry is bound to a file whose
-visible content is the message or its complete rewrite, and every OTHER entry that existed is bound
+visible content is the message or its complete rewrite (for some answers `as` of the operating system to the questions
+of evaluation), and every OTHER entry that existed is bound
 to the same file, with the same content. -/
 theorem C01_message_no_loss (env : PEnv) (orc : EvalOracles) (expr : Expr) (md : Maildir) (name : Bytes) (st : MainSt)
     (w : World) (plan : Plan) (d : Handle) (content : Bytes) (fid : Nat)
@@ -322,11 +328,11 @@ theorem C01_message_no_loss (env : PEnv) (orc : EvalOracles) (expr : Expr) (md :
     (hl : w.lookup md.path name = some fid) (hlt : fid < w.nextFid) (hf : w.file fid = some ⟨content, content⟩)
     (hnd : Proofs.WholeNoDiscard env orc expr) :
     ∀ w' ∈ (runPlan plan (processMessage env orc expr md name st) w 0 []).2.2,
-      Proofs.Intact w' [content, Proofs.wholeRewrite env orc expr md.path name content] ∧
+      (∃ as, Proofs.Intact w' [content, Proofs.wholeRewrite env orc expr md.path name content as]) ∧
       ∀ q m g, (q, m) ≠ (md.path, name) → w.lookup q m = some g →
-        w'.lookup q m = some g ∧ (g < w.nextFid → w'.file g = w.file g) := fun w' hw' =>
-  ⟨(Proofs.whole_message_no_loss env orc expr md name st w plan hd hp hwf hfc hl hlt hf hnd w' hw').1,
-   (Proofs.whole_message_no_loss env orc expr md name st w plan hd hp hwf hfc hl hlt hf hnd w' hw').2.2⟩
+        w'.lookup q m = some g ∧ (g < w.nextFid → w'.file g = w.file g) := fun w' hw' => by
+  obtain ⟨⟨as, h1, _⟩, h2⟩ := Proofs.whole_message_no_loss env orc expr md name st w plan hd hp hwf hfc hl hlt hf hnd w' hw'
+  exact ⟨⟨as, h1⟩, h2⟩
 
 /-- **One maildir.**  `walk` under EVERY fault plan, from a world with which the registry is
 consistent and in which the maildir's handle is open on its path (`Proofs.WholeMdOk`): after EVERY
@@ -403,38 +409,61 @@ not have the error flag, then (`Proofs.WholeFinalPlace`) the registry and the wo
 in the directory of the last move/flag/flags action, under its own or a formerly free name, bound to a
 file that holds the rewritten message if `ml` contains a label or add-header (in any case the
 original or the rewritten bytes); the original entry is free unless it is the final one; every other
-entry of every directory is bound as before.
+entry of every directory is bound as before.  The rules are evaluated inside the run (the one fault may hit a call of
+evaluation): the statement is for the verdict `Proofs.verdictA … as` of SOME answers `as` of the operating system (those of
+the run), `Proofs.WholeExit0V`: not an error verdict; an action list - final place; no match - the registry is unchanged.  For
+a rule tree without `command` / `isdirectory` / file-time `date` conditions this is the pure verdict (`C01_message_exit0_pure`).
 
 With `C04_error_iff_partial` (exit status 0 iff no cause of the error flag occurred, in particular no
 message's error bit) this is `C01_main_exit0` message by message: "final place" is a notion of one
 processing step - a message moved into a maildir that is walked later is processed again - so the
 statement is made per step and not once for the run. -/
 theorem C01_message_exit0 (env : PEnv) (orc : EvalOracles) (expr : Expr) (md : Maildir) (name : Bytes) (st : MainSt)
+    (w : World) (plan : Plan) (d : Handle) (content : Bytes) (fid : Nat)
+    (hd : md.dirH = some d) (hp : w.dirPath d = some md.path)
+    (hwf : pathjoin PATH_MAX md.root (subdirName md.subdir) = some md.path)
+    (hfc : st.files.get md.path name = some content)
+    (hl : w.lookup md.path name = some fid) (hf : w.file fid = some ⟨content, content⟩) (hc : Proofs.WholeClean w)
+    (hnd : Proofs.WholeNoDiscard env orc expr)
+    (hdry : env.dryrun = false) (hpl : Proofs.World.SingleFault plan)
+    (he : (runPlan plan (processMessage env orc expr md name st) w 0 []).1.1.error = false) :
+    ∃ as, Proofs.WholeExit0V w md name content st (runPlan plan (processMessage env orc expr md name st) w 0 []).1
+      (runPlan plan (processMessage env orc expr md name st) w 0 []).2.1 (Proofs.verdictA env orc expr md.path name content as) :=
+  Proofs.whole_message_exit0 env orc expr md name st w plan hd hp hwf hfc hl hf hc hnd hdry hpl he
+
+/-- The same for a rule tree that asks the operating system nothing, in terms of the pure verdict: if the rules act on the
+message (list `ml`), it is at its final place. -/
+theorem C01_message_exit0_pure (env : PEnv) (orc : EvalOracles) (expr : Expr) (md : Maildir) (name : Bytes) (st : MainSt)
     (w : World) (plan : Plan) (d : Handle) (content : Bytes) (fid : Nat) (ml : MatchList) (msgs : Nat → Msg) (fl : MFlags)
     (hd : md.dirH = some d) (hp : w.dirPath d = some md.path)
     (hwf : pathjoin PATH_MAX md.root (subdirName md.subdir) = some md.path)
     (hfc : st.files.get md.path name = some content)
     (hl : w.lookup md.path name = some fid) (hf : w.file fid = some ⟨content, content⟩) (hc : Proofs.WholeClean w)
-    (hvd : Proofs.verdict env orc expr md.path name content = .act ml msgs fl) (hml : Proofs.NoDiscard ml)
+    (hfree : Proofs.asksFree expr = true) (hnd : Proofs.WholeNoDiscard env orc expr)
+    (hvd : Proofs.verdict env orc expr md.path name content = .act ml msgs fl)
     (hdry : env.dryrun = false) (hpl : Proofs.World.SingleFault plan)
     (he : (runPlan plan (processMessage env orc expr md name st) w 0 []).1.1.error = false) :
     Proofs.WholeFinalPlace w md name content ml (msgs 0) (runPlan plan (processMessage env orc expr md name st) w 0 []).1
-      (runPlan plan (processMessage env orc expr md name st) w 0 []).2.1 :=
-  Proofs.whole_message_exit0 env orc expr md name st w plan hd hp hwf hfc hl hf hc hvd hml hdry hpl he
+      (runPlan plan (processMessage env orc expr md name st) w 0 []).2.1 := by
+  obtain ⟨as, h⟩ := C01_message_exit0 env orc expr md name st w plan d content fid hd hp hwf hfc hl hf hc hnd hdry hpl he
+  rw [Proofs.verdictA_asksFree env orc expr hfree, hvd] at h
+  exact h
 
 /-- Non-vacuity: the rules of the example act on its first message, without discard; not a dry run;
 the plan that fails call 5 with `EIO` has at most one fault. -/
 example : (∃ ml msgs fl, Proofs.verdict Proofs.exEnv Proofs.wholeExOrc Proofs.wholeExExpr Proofs.exMd.path Proofs.exName Proofs.exOrig =
-      .act ml msgs fl ∧ Proofs.NoDiscard ml) ∧
+      .act ml msgs fl ∧ Proofs.NoDiscard ml) ∧ Proofs.asksFree Proofs.wholeExExpr = true ∧
+    Proofs.WholeNoDiscard Proofs.exEnv Proofs.wholeExOrc Proofs.wholeExExpr ∧
     Proofs.exEnv.dryrun = false ∧ Proofs.World.SingleFault (Proofs.World.singlePlan 5 (.fail "EIO")) := by
-  refine ⟨?_, rfl, Proofs.World.singleFault_single _ _⟩
+  refine ⟨?_, by decide, Proofs.whole_noDiscard_of_syntax _ _ _ (by decide), rfl, Proofs.World.singleFault_single _ _⟩
   have hacts : (Proofs.verdict Proofs.exEnv Proofs.wholeExOrc Proofs.wholeExExpr Proofs.exMd.path Proofs.exName Proofs.exOrig).acts = true := by
     unfold Proofs.verdict Proofs.msVerdict Proofs.wholeExExpr
     simp only [eval]
     decide +kernel
   cases h : Proofs.verdict Proofs.exEnv Proofs.wholeExOrc Proofs.wholeExExpr Proofs.exMd.path Proofs.exName Proofs.exOrig with
   | act ml msgs fl =>
-    exact ⟨ml, msgs, fl, rfl, Proofs.whole_noDiscard_of_syntax _ _ _ (by decide) _ _ _ _ _ _ h⟩
+    exact ⟨ml, msgs, fl, rfl, Proofs.whole_noDiscard_of_syntax _ _ Proofs.wholeExExpr (by decide) _ _ _ [] _ _ _
+      (by rw [Proofs.verdictA_asksFree _ _ _ (by decide)]; exact h)⟩
   | unparsable => rw [h] at hacts; cases hacts
   | «nomatch» => rw [h] at hacts; cases hacts
   | error => rw [h] at hacts; cases hacts
@@ -454,7 +483,7 @@ example :
         fun x => x.2 == .err "EIO") = some true ∧
     (runPlan (Proofs.World.singlePlan 6 (.fail "EIO")) (processMessage Proofs.exEnv Proofs.wholeExOrc
       (.mtch 1 (.all 1) (.flag 1 [99, 117, 114])) Proofs.exMd Proofs.exName Proofs.wholeExSt) Proofs.wholeExWorldW 0 []).1.1.error = true := by
-  simp only [processMessage, eval]
+  simp only [processMessage, evalP, evalTop, evalT, eval]
   decide +kernel
 
 /-- Why "exactly once" / "no stray" / "final place" are single-fault statements while loss-freedom is
@@ -471,7 +500,7 @@ example :
     r.1.1.error = true ∧ r.2.1.lookup Proofs.exNew Proofs.exName = some 0 ∧
       r.1.1.files.get Proofs.exNew Proofs.exName = some Proofs.exOrig ∧
       (r.2.1.dir Proofs.exCur).map (·.map (·.2)) = some [2] ∧ r.2.1.file 2 = some ⟨[], []⟩ := by
-  simp only [processMessage, eval]
+  simp only [processMessage, evalP, evalTop, evalT, eval]
   decide +kernel
 
 /-! ## exit status 0 of a whole run (maildir mode, at most one fault)
@@ -502,13 +531,15 @@ is processed twice it becomes a statement about the run (Proofs/WorldExit*.lean)
   occur. -/
 
 /-- **Exit status 0 means every message is at its final place**: maildir mode, real run (no `-d`, no `-n`),
-rules without discard, a plan with at most one fault, no message processed twice (`exit0_Good`): if `main`
+rules without discard that ask the operating system nothing (`Proofs.asksFree`: `exit0_Placed` speaks about the pure
+verdict), a plan with at most one fault, no message processed twice (`exit0_Good`): if `main`
 returns 0 then EVERY message of the initial registry that lies in a configured maildir is placed as the rules
 say, in the world and in the registry `main` ends with - composed from `C01_message_exit0` through `walk`,
 the loops over paths and blocks, with the stickiness of the error flag (`C04_error_flag_inert`). -/
 theorem C01_main_exit0_partial (env : PEnv) (orc : EvalOracles) (confOk : Bool) (conf : List ConfBlock) (files : Files)
     (input : Bytes) (w : World) (plan : Plan)
     (hm : env.stdinMode = false) (hsyn : env.syntaxOnly = false) (hdry : env.dryrun = false)
+    (hfree : ∀ b ∈ conf, Proofs.asksFree b.expr = true)
     (hnd : ∀ b ∈ conf, Proofs.WholeNoDiscard env orc b.expr) (hreg : Proofs.WholeReg w files)
     (hgood : Proofs.exit0_Good ⟨env, orc, Proofs.exit0_dirsOf conf, files, w⟩)
     (hpl : Proofs.World.SingleFault plan)
@@ -516,7 +547,7 @@ theorem C01_main_exit0_partial (env : PEnv) (orc : EvalOracles) (confOk : Bool) 
     ∀ D e n c, (D, e) ∈ Proofs.exit0_dirsOf conf → files.get D n = some c →
       Proofs.exit0_Placed env orc e D n c (runPlan plan (mainP env orc confOk conf files input) w 0 []).1.2
         (runPlan plan (mainP env orc confOk conf files input) w 0 []).2.1 :=
-  (Proofs.exit0_main_exit0 env orc confOk conf files input w plan hm hsyn hdry hnd hreg hgood hpl h0).1
+  (Proofs.exit0_main_exit0 env orc confOk conf files input w plan hm hsyn hdry hfree hnd hreg hgood hpl h0).1
 
 /-- The hypotheses on configuration, registry and world, decidably. -/
 theorem C01_good_check (C : Proofs.exit0_Ctx) (h : Proofs.exit0_goodOk C = true) : Proofs.exit0_Good C :=
@@ -546,12 +577,13 @@ example : Proofs.exit0_Good ⟨Proofs.exEnv, Proofs.wholeExOrc, Proofs.exit0_dir
 (both messages are sent to `/y/new`, which is not configured): maildir mode, real run, no discard, consistent
 registry, `exit0_Good`; the fault-free plan has at most one fault. -/
 example : Proofs.exEnv.stdinMode = false ∧ Proofs.exEnv.syntaxOnly = false ∧ Proofs.exEnv.dryrun = false ∧
+    (∀ b ∈ Proofs.exit0_exConf, Proofs.asksFree b.expr = true) ∧
     (∀ b ∈ Proofs.exit0_exConf, Proofs.WholeNoDiscard Proofs.exEnv Proofs.wholeExOrc b.expr) ∧
     Proofs.WholeReg Proofs.wholeExWorld Proofs.wholeExFiles ∧
     Proofs.exit0_Good ⟨Proofs.exEnv, Proofs.wholeExOrc, Proofs.exit0_dirsOf Proofs.exit0_exConf, Proofs.wholeExFiles,
       Proofs.wholeExWorld⟩ ∧
     Proofs.World.SingleFault Plan.none :=
-  ⟨rfl, rfl, rfl, Proofs.exit0_ex_nd, Proofs.wholeEx_reg, Proofs.exit0_ex_good, Proofs.World.singleFault_none⟩
+  ⟨rfl, rfl, rfl, by decide, Proofs.exit0_ex_nd, Proofs.wholeEx_reg, Proofs.exit0_ex_good, Proofs.World.singleFault_none⟩
 
 /-- **Audit au1: the example above does NOT satisfy the remaining hypothesis `h0`.**  In `Proofs.wholeExWorld` the
 destination `/y/new` does not exist, so the fault-free run of that configuration fails to open it and ends with exit
@@ -562,14 +594,15 @@ example : (runPlan Plan.none (mainP Proofs.exEnv Proofs.wholeExOrc true Proofs.e
     Proofs.wholeExWorld 0 []).1, Proofs.Own.mainP_eq]
   unfold Proofs.Own.mainK
   simp only [Proofs.exit0_exConf, Proofs.Own.blocks_cons, Proofs.Own.blocks_nil, Proofs.Own.paths_cons, Proofs.Own.paths_nil,
-    Proofs.dry_walk_G, Proofs.exit0_exExpr, eval]
+    Proofs.dry_walk_G _ _ Proofs.exit0_exExpr (by decide)]
+  simp only [Proofs.exit0_exExpr, eval]
   decide +kernel
 
 /-- Complete non-vacuity of `C01_main_exit0_partial`, exit status included: the same configuration and registry on
 `Proofs.dry_f21World2` (the two-message world WITH `/y/new` and `/y/cur`): every hypothesis holds (`Proofs.dry_ex_runs.1`
 is the evaluated exit status 0), so both messages are placed in `/y/new`. -/
 example := C01_main_exit0_partial Proofs.exEnv Proofs.wholeExOrc true Proofs.exit0_exConf Proofs.wholeExFiles []
-    Proofs.dry_f21World2 Plan.none rfl rfl rfl Proofs.exit0_ex_nd Proofs.dry_f21_reg2 Proofs.dry_ex_good
+    Proofs.dry_f21World2 Plan.none rfl rfl rfl (by decide) Proofs.exit0_ex_nd Proofs.dry_f21_reg2 Proofs.dry_ex_good
     Proofs.World.singleFault_none Proofs.dry_ex_runs.1
 
 /-- The full statement without the side condition on the rules (`norev`) - kept as a named proposition:
@@ -749,27 +782,28 @@ See the section "the fuel of the model's `readdir` loops" of `Props/C04.lean` fo
 (`C04_fuel_irrelevant*`, `C04_fuel_suffices_conform`). -/
 
 /-- **The standard fuel suffices for a run that ends without the error flag**: maildir mode, real run, rules without
-discard, registry consistent, at most one fault, `exit0_Good` (no directory walked twice, distinct names, EVERY name of a
-walked directory registered, no message sent to a directory still to be walked - the hypotheses of
-`C01_main_exit0_partial`): if the run ends with the error flag clear, then `fuelOut = false` - no walk stopped for lack of
+discard and without conditions that ask the operating system (`asksFree`), registry consistent, at most one fault,
+`exit0_Good` (no directory walked twice, distinct names, EVERY name of a walked directory registered, no message sent to a
+directory still to be walked - the hypotheses of `C01_main_exit0_partial`): if the run ends with the error flag clear, then `fuelOut = false` - no walk stopped for lack of
 fuel, for every value of `env.extraFuel` (in particular 0: the allowance `2n+8`).  Bound used by the proof: the walk of `new`
 makes `a+3` iterations (`a` names, `.`, `..`, end), the walk of `cur` at most `a+b+3` (`b` names it had, plus those that
 arrived from `new`), and `2a+b+6 ≤ 2n+8` for `n = a+b` registered files. -/
 theorem C01_walk_fuel_suffices (env : PEnv) (orc : EvalOracles) (confOk : Bool) (conf : List ConfBlock) (files : Files)
     (input : Bytes) (w : World) (plan : Plan)
     (hm : env.stdinMode = false) (hsyn : env.syntaxOnly = false) (hdry : env.dryrun = false)
+    (hfree : ∀ b ∈ conf, Proofs.asksFree b.expr = true)
     (hnd : ∀ b ∈ conf, Proofs.WholeNoDiscard env orc b.expr) (hreg : Proofs.WholeReg w files)
     (hgood : Proofs.exit0_Good ⟨env, orc, Proofs.exit0_dirsOf conf, files, w⟩)
     (hpl : Proofs.World.SingleFault plan)
     (he : (runPlan plan (mainP env orc confOk conf files input) w 0 []).1.2.error = false) :
     (runPlan plan (mainP env orc confOk conf files input) w 0 []).1.2.fuelOut = false :=
   Proofs.exit0_main_fuel ⟨env, orc, Proofs.exit0_dirsOf conf, files, w⟩ hgood hm hsyn confOk conf input rfl
-    (fun b hb => Proofs.exit0_step_real env orc b.expr hdry (hnd b hb)) hreg plan hpl he
+    (fun b hb => Proofs.exit0_step_real env orc b.expr (hfree b hb) hdry (hnd b hb)) hreg plan hpl he
 
 /-- Non-vacuity: the hypotheses of `C01_main_exit0_partial` on `Proofs.dry_f21World2` (see there), the error flag of that run
 is clear because its exit status is 0. -/
 example := C01_walk_fuel_suffices Proofs.exEnv Proofs.wholeExOrc true Proofs.exit0_exConf Proofs.wholeExFiles []
-    Proofs.dry_f21World2 Plan.none rfl rfl rfl Proofs.exit0_ex_nd Proofs.dry_f21_reg2 Proofs.dry_ex_good
+    Proofs.dry_f21World2 Plan.none rfl rfl rfl (by decide) Proofs.exit0_ex_nd Proofs.dry_f21_reg2 Proofs.dry_ex_good
     Proofs.World.singleFault_none
     (Proofs.exit0_status_zero Proofs.exEnv Proofs.wholeExOrc true Proofs.exit0_exConf Proofs.wholeExFiles []
       Proofs.dry_f21World2 Plan.none rfl Proofs.dry_ex_runs.1)
